@@ -36,13 +36,30 @@ impl EnvConverter {
 
     fn convert_tuple(&self, flds: &[(Rc<str>, Rc<Val>)], w: &mut dyn IOWrite) -> ConvertResult {
         for (name, val) in flds.iter() {
-            if val.is_tuple() {
-                eprintln!("Skipping embedded tuple...");
-                return Ok(());
-            }
-            if let &Val::Empty = val.as_ref() {
-                eprintln!("Skipping empty variable: {}", name);
-                return Ok(());
+            // Fields we can't represent are skipped. They must not end the
+            // conversion or leave a dangling `NAME=` for the next field.
+            match val.as_ref() {
+                Val::Tuple(_) => {
+                    eprintln!("Skipping embedded tuple...");
+                    continue;
+                }
+                Val::Empty => {
+                    eprintln!("Skipping empty variable: {}", name);
+                    continue;
+                }
+                Val::List(_) => {
+                    eprintln!("Skipping List...");
+                    continue;
+                }
+                Val::Env(_) => {
+                    eprintln!("Skipping env...");
+                    continue;
+                }
+                Val::Constraint(_) => {
+                    eprintln!("Skipping constraint...");
+                    continue;
+                }
+                _ => {}
             }
             write!(w, "{}=", name)?;
             self.write(val, w)?;
